@@ -556,8 +556,13 @@ pub fn build_rdata(code: u16, f: &[FVal]) -> Option<RData<'static>> {
 fn build_svcb(f: &[FVal]) -> Option<SVCB<'static>> {
     let pr = u16::try_from(gi(f, 0)?).ok()?;
     let mut s = SVCB::new(pr, gn(f, 1)?);
-    for (k, v) in gl(f, 2)? {
-        s.set_param(u16::try_from(k).ok()?, v).ok()?;
+    for (i, (k, v)) in gl(f, 2)?.into_iter().enumerate() {
+        let key = u16::try_from(k).ok()?;
+        if i % 2 == 0 {
+            // "the previous entry will be replaced": every other key is first set to something else
+            s.set_param(key, vec![0x55u8; (v.len() + 3) % 7]).ok()?;
+        }
+        s.set_param(key, v).ok()?;
     }
     Some(s)
 }
